@@ -1,4 +1,4 @@
-import BufrProofs.Codec
+import BufrProofs.CodecCompressed
 /-
   C02 — Compression never changes content; incompressible datasets fall back safely.
 
@@ -132,6 +132,34 @@ theorem C02_equal_strings_same_octets (a b : List Nat) (enclen : Nat) (hz : ∀ 
     a.take enclen ++ List.replicate (enclen - a.length) 32 = b.take enclen ++ List.replicate (enclen - b.length) 32 :=
   padded_eq_of_not_differs a b enclen hz h
 
+
+/-- **static templates, compressed form** (`k+1` subsets): reading the compressed body the encoder
+wrote column by column, the lock-step decoder returns `k+1` subsets with `decElem` at every position
+(the value that subset had: raw bits through the one value function, octets of its own string, its own
+associated field), keeps the invalid flag as it was, never dereferences a missing node and stops
+right after the last column -/
+theorem C02_static_compressed (T : Tables) (edition s4max : Nat) (enforce : Enforce) (k : Nat) (fuel : Nat)
+    (bsq : List Node) (cols : List (List Node)) (w : W) (hIw : WInv w) (hw0 : w.bits = [])
+    (hfuel : bsq.length < fuel) (hok : staticOK T edition { enforce := enforce } bsq = true)
+    (hp : List.Forall₂ (PosOK k) bsq cols) (err : Bool) (r : R) (hI : RInv r) (pad : List Bool)
+    (hb : r.bits = (cols.foldl putColumn w).bits ++ pad) :
+    ∃ st', decodeCompressedLoop T edition s4max (⟨k + 1, 0, 0⟩ : Range) fuel
+        { r := r, invalid := err, ddos := List.replicate (k + 1) { enforce := enforce },
+          dones := List.replicate (k + 1) [], todos := List.replicate (k + 1) bsq } = .ok st' ∧
+      st'.invalid = err ∧
+      List.zipWith (fun d t => mkvalAll (d.reverse ++ t)) st'.dones st'.todos =
+        (transposeDec k bsq cols).map mkvalAll ∧
+      st'.r.bits = pad :=
+  compressed_static_roundtrip T edition s4max enforce k fuel bsq cols w hIw hw0 hfuel hok hp err r hI pad hb
+
+/-- **one position, compressed**: associated field, then numeric / character / no-data column -/
+theorem C02_position (n : Node) (col : List Node) (hok : ColOK n col) (hns : n.flags.skipped = false)
+    (r : R) (hI : RInv r) (tail : List Bool) (hb : r.bits = afColBits col ++ bodyColBits col ++ tail)
+    (g : Range) (hfull : g.from_ ≤ 0) (hn : g.nsub = col.length) :
+    ∃ r', readPosition r n (List.replicate col.length n) g = some (r', col.map (decElem n)) ∧
+      r'.bits = tail ∧ RInv r' :=
+  readPosition_roundtrip n col hok hns r hI tail hb g hfull hn
+
 /-! ### Non-vacuity -/
 
 def exNode (v : Int) : Node :=
@@ -142,6 +170,9 @@ example : ∀ n ∈ [exNode 300, exNode (-1), exNode 7], value2bits n ≤ missin
 example : encNumCol 16 ([exNode 300, exNode (-1), exNode 7].map value2bits) = (7, 9, [293, 511, 0]) := by
   decide +kernel
 example : WInv (W.new 0) := WInv_new 0
+/-- a column of three subsets at a 16-bit numeric position -/
+example : ColOK { exNode 0 with val := .none } [exNode 300, exNode (-1), exNode 7] :=
+  ⟨by simp, by decide, by decide, by decide, fun _ => by decide +kernel, fun h => by simp [exNode] at h⟩
 example : (⟨3, 2, 3⟩ : Range).OK := Or.inr (by decide)
 example : compressible [[exNode 1], [exNode 2, exNode 3]] = false := by decide +kernel
 example : strDiffers [76, 73, 78, 90] [76, 73, 78, 90, 32, 32] 8 = false ∧ strDiffers [76, 73, 78, 90] [76, 73, 78, 90, 32, 72] 8 = true := by decide
